@@ -863,4 +863,75 @@ Proof.
       eexists. unfold pending_of. autorewrite with ps. split; [reflexivity|exact Hid'].
   - exact Hpos.
 Qed.
+
+(** ** the environment and default phases *)
+Lemma fold_res_safe {A} (step : res ps -> A -> res ps) (l : list A) (Q : A -> Prop) :
+  (forall x, In x l -> Q x) ->
+  (forall acc x, Q x -> safe G G acc -> safe G G (step acc x)) ->
+  forall acc, safe G G acc -> safe G G (fold_left step l acc).
+Proof.
+  intros HQ Hstep. induction l as [|x t IH]; intros acc Hacc; cbn [fold_left]; [exact Hacc|].
+  apply IH; [intros y Hy; apply HQ; right; exact Hy|]. apply Hstep; [apply HQ; left; reflexivity|exact Hacc].
+Qed.
+
+Lemma add_env_safe st : G st -> safe G G (add_env c st).
+Proof.
+  intros HG. unfold add_env.
+  apply (fold_res_safe _ (c_args c) (fun a => In a (c_args c))); [auto| |exact HG].
+  intros acc a Hin Hacc. eapply safe_bind; [exact Hacc|]. intros s HGs.
+  destruct (mt_contains (mt s) (a_id a)); [exact HGs|].
+  destruct (a_env a) as [v|]; [|exact HGs].
+  eapply safe_bind; [apply react_safe; eassumption|]. intros x [Hx _]. exact Hx.
+Qed.
+
+Lemma add_default_value_safe a st : In a (c_args c) -> G st -> safe G G (add_default_value c a st).
+Proof.
+  intros Hin HG. unfold add_default_value.
+  assert (Plain : safe G G (if negb (is_nil (a_default a)) then
+                              if mt_contains (mt st) (a_id a) then ROk st
+                              else do x <- react c None SDefault a (a_default a) None st; ROk (fst x)
+                            else ROk st)).
+  { destruct (negb (is_nil (a_default a))); [|exact HG]. destruct (mt_contains (mt st) (a_id a)); [exact HG|].
+    eapply safe_bind; [apply react_safe; eassumption|]. intros x [Hx _]. exact Hx. }
+  destruct (negb (is_nil (a_default_ifs a)) && negb (mt_contains (mt st) (a_id a))); [|exact Plain].
+  destruct (List.find _ (a_default_ifs a)) as [[[i p] [d|]]|]; [|exact HG|exact Plain].
+  eapply safe_bind; [apply react_safe; eassumption|]. intros x [Hx _]. exact Hx.
+Qed.
+
+Lemma add_defaults_safe st : G st -> safe G G (add_defaults c st).
+Proof.
+  intros HG. unfold add_defaults.
+  apply (fold_res_safe _ (c_args c) (fun a => In a (c_args c))); [auto| |exact HG].
+  intros acc a Hin Hacc. eapply safe_bind; [exact Hacc|]. intros s HGs. apply add_default_value_safe; assumption.
+Qed.
+
+(** ** storing the subcommand's matches does not disturb the invariant *)
+Lemma G_set_sub st sub : G st -> G (st <| mt := (mt st) <| mt_sub := sub |> |>).
+Proof. intros [[Hp [He HP]] [Hfa Hfs]]. repeat split; assumption. Qed.
+
+Lemma G_ps_new : P [] 0 -> G ps_new.
+Proof.
+  intros HP. repeat split; cbn; try assumption; try reflexivity.
+  - intros p Hp. discriminate.
+  - intros i m [].
+Qed.
 End Level.
+
+(** * the external-subcommand capture never hits its [expect] *)
+Lemma external_fill_safe c vp st : forall vals (acc : res matcher),
+  (match acc with ROk m => exists ma, fm_get ext_id (mt_args m) = Some ma /\ m_raw ma <> []
+                | RErr _ s => s = st | RPanic _ => False end) ->
+  match fold_left (fun rm v => do m <- rm;
+                      match vp_parse vp v with
+                      | Some k => RErr (mkerr c k []) st
+                      | None => expect 458 (add_val_to m ext_id v)
+                      end) vals acc with
+  | ROk _ => True | RErr _ s => s = st | RPanic _ => False end.
+Proof.
+  induction vals as [|v t IH]; intros acc Hacc; cbn [fold_left]; [destruct acc; auto|].
+  apply IH. destruct acc as [m|e s|x]; cbn [rbind]; [|exact Hacc|exact Hacc].
+  destruct (vp_parse vp v); [reflexivity|].
+  destruct Hacc as [ma [Hg Hr]]. unfold add_val_to. rewrite Hg.
+  destruct (append_val_open v ma Hr) as [m' [Ha [Hr' _]]]. rewrite Ha. cbn.
+  eexists. autorewrite with ps. rewrite fm_get_update, Hg, beq_refl. split; [reflexivity|exact Hr'].
+Qed.
